@@ -996,6 +996,11 @@ func (a *analysis) checkControl(x *verifkit.Exec) {
 					a.bad("C11/stop-acted-on-another-run", "stop-and-wait returned nil but connectors of a run are still open (event #%d): it acted on an earlier run", e.Seq)
 				}
 			case "wait":
+				if res[0] == "nil" && !liveRun && memStatus == "Degraded" && sourceOpens(a.evs, e.Seq) == 1 && !x.StepCapHit {
+					// the pipeline has had exactly one run, that run failed (the pipeline is Degraded) and is over: WaitPipeline
+					// reports the terminal result of the run it waited for, which is that failure
+					a.bad("C11/wait-hides-the-failure-of-its-run", "WaitPipeline returned nil although the only run of the pipeline ended in failure (status Degraded, connectors closed) (event #%d)", e.Seq)
+				}
 				if res[0] == "nil" && liveRun && memStatus == "Running" && a.healthy && liveAtCall && statusAtCall == "Running" {
 					a.bad("C11/wait-returned-for-another-run", "WaitPipeline returned nil while the pipeline is Running with open connectors (event #%d): it waited for an earlier run", e.Seq)
 				}
@@ -1111,6 +1116,20 @@ func earlierRunStatusLandedLate(evs []verifkit.Event) bool {
 		}
 	}
 	return false
+}
+
+// sourceOpens counts how often the first source was opened up to (and including) event seq.
+func sourceOpens(evs []verifkit.Event, seq int) int {
+	n := 0
+	for _, e := range evs {
+		if e.Seq > seq {
+			break
+		}
+		if e.Comp == "s0" && e.Kind == "open" {
+			n++
+		}
+	}
+	return n
 }
 
 // waitMayBlock reports whether a WaitPipeline call is entitled to block at the end of the execution: a run is live (a
